@@ -64,6 +64,10 @@ class B(object):
         self.seen_names = set()
 
     # ---- helpers
+    def exc_name(self):
+        self.exc_counter = getattr(self, 'exc_counter', 0) + 1
+        return 'ex%d' % self.exc_counter if self.profile != 'c01' else EXC_NAMES[self.exc_counter % 2]
+
     def pick(self, seq):
         return self.draw(st.sampled_from(list(seq)))
 
@@ -78,7 +82,7 @@ class B(object):
     def readable(self, ctx):
         """A name to read: mostly pool names, sometimes functions/classes/builtins/never-bound."""
         k = self.draw(st.integers(0, 19))
-        bound = [n for n in ctx.get('bound', ()) if n in POOL or n in COMP_VARS or n in EXC_NAMES or n == 'self']
+        bound = [n for n in ctx.get('bound', ()) if n in POOL or n[:1] in 'ij' or n[:2] == 'ex' or n == 'self']
         if k < 16 and bound:
             return self.pick(bound)
         if k < 13:
@@ -202,6 +206,8 @@ class B(object):
         self.dec()
         nfor = 1 if not self.room() or self.chance(75) else 2
         inner = dict(ctx, no_walrus=True)
+        self.comp_nest = getattr(self, 'comp_nest', 0) + 1
+        COMP_VARS = ['i%d' % self.comp_nest, 'j%d' % self.comp_nest] if self.profile != 'c01' else ['i', 'j']
         clauses = []
         vars_ = []
         walrus_names = []
@@ -212,7 +218,7 @@ class B(object):
                 new = COMP_VARS[:2]
                 self.features.add('comp-tuple-target')
             else:
-                v = COMP_VARS[i % 2] if self.profile == 'c03' or self.chance(70) else self.pick(POOL)
+                v = COMP_VARS[i % 2] if self.profile != 'c01' or self.chance(70) else self.pick(POOL)
                 if v in forbid or v in vars_:
                     v = COMP_VARS[i % 2]
                 tgt = v
@@ -236,9 +242,13 @@ class B(object):
                 self.features.add('comp-if')
             clauses.append(c)
         ictx = dict(inner, extra_reads=extra + vars_, bound=list(ctx.get('bound', [])) + vars_ + vars_)
-        elt = self.expr(ictx, depth + 1, forbid)
-        if self.chance(60):
-            elt = '(%s, %s)' % (self.pick(vars_), elt)
+        if kind == 'set':
+            elt = '(%s, %s)' % (self.pick(vars_), self._read(ictx, forbid))     # must stay hashable
+        else:
+            elt = self.expr(ictx, depth + 1, forbid)
+            if self.chance(60):
+                elt = '(%s, %s)' % (self.pick(vars_), elt)
+        self.comp_nest -= 1
         if kind == 'dict':
             return '{%s: %s %s}' % (self.pick(vars_), elt, ' '.join(clauses))
         o, c = {'list': '[]', 'set': '{}', 'gen': '()'}[kind]
@@ -456,14 +466,14 @@ class B(object):
                     head = 'except:'
                     self.features.add('bare-except')
                 elif k < 6:
-                    en = EXC_NAMES[hi % 2] if self.profile == 'c03' or self.chance(60) else self.name()
+                    en = self.exc_name() if self.profile != 'c01' or self.chance(60) else self.name()
                     head = 'except ValueError as %s:' % en
                     self.features.add('except-as')
                 else:
                     head = 'except (ValueError, KeyError):'
             else:
                 if k < 5:
-                    en = EXC_NAMES[hi % 2] if self.profile == 'c03' or self.chance(60) else self.name()
+                    en = self.exc_name() if self.profile != 'c01' or self.chance(60) else self.name()
                     head = 'except KeyError as %s:' % en
                     self.features.add('except-as')
                 else:
@@ -499,7 +509,7 @@ class B(object):
         lines += body
         if handler:
             if self.chance(60):
-                en = EXC_NAMES[0]
+                en = self.exc_name()
                 lines.append(ind + 'except ValueError as %s:' % en)
                 self.features.add('except-as')
                 extra = list(ctx.get('extra_reads', [])) + [en]
